@@ -97,6 +97,7 @@ class State:
         self.dns_done = {}
         self.detached = set()  # stand-alone bundles not (yet) attached to the document
         self.standalone = set()  # every target that was created as a stand-alone ProvBundle
+        self.intent_problems = []  # what the program asked for and did not get (judged by the checks that own the clause)
         self.nspool = {}
         self.style_xor = 0    # flips the call style of factory calls (route twins)
 
@@ -240,6 +241,11 @@ def exec_op(st, op):
         nss = op[1]
         st.doc = pm.ProvDocument(namespaces=dict(nss) if op[2] == "dict" else [st.namespace(p, u) for p, u in nss])
         st.tg["D"] = st.doc
+        declared = {n.uri for n in st.doc.namespaces}
+        for p, u in nss:
+            if u not in declared:
+                # whatever prefix it ends up under, a namespace handed to the constructor is declared with *its* URI
+                st.intent_problems.append("ProvDocument(namespaces=%s) declares no namespace <%s> (asked for %r)" % (op[2], u, p))
         return st.doc
     if k == "sbundle":
         if len(op) > 3 and op[3]:
